@@ -908,6 +908,9 @@ func (e *Env) call(n *CNode) Val {
 		return n2.expr(n.Args[0])
 	case "reached":
 		// reached(F): this path has made the (first) call of callee F
+		if e.callSite {
+			panic(cxSkip{"reached() refers to a path inside the callee"})
+		}
 		root := e.fc
 		for root.parent != nil {
 			root = root.parent
@@ -945,10 +948,10 @@ func (e *Env) call(n *CNode) Val {
 		n2.state = st
 		r := n2.expr(n.Args[1])
 		if guard != "" {
-			if r.ty == nil || r.ty != tBool {
-				cxFail("after(%s, e): the call is not made on every path, e must be a condition", n.Args[0].Name)
+			if r.ty != nil && r.ty == tBool {
+				r.t = fmt.Sprintf("(=> %s %s)", guard, r.t)
 			}
-			r.t = fmt.Sprintf("(=> %s %s)", guard, r.t)
+			// a value (not a condition): meaningful only on paths that made the call - guard the clause with reached(F)
 		}
 		return r
 	case "prev":
